@@ -130,7 +130,16 @@ Ltac unfold_Z_consts :=
         lazymatch v with Z0 => idtac | Zpos _ => idtac | Zneg _ => idtac end; change c with v
   end.
 
-Ltac finish_pre := repeat match goal with |- _ /\ _ => split | |- _ -> _ => intro end.
+Ltac finish_pre :=
+  repeat match goal with
+         | |- _ /\ _ => split
+         | |- _ -> _ => intro
+         | |- (_ :: _) = (_ :: _) => f_equal
+         | |- (_, _) = (_, _) => f_equal
+         | |- Some _ = Some _ => f_equal
+         | |- ?f _ = ?f _ => is_constructor f; f_equal
+         | |- Z.b2z _ = Z.b2z _ => f_equal
+         end.
 
 Ltac finish0 :=
   finish_pre;
@@ -178,6 +187,29 @@ Ltac unwrap_step :=
 
 Ltac unwrap := repeat unwrap_step; unfold kmod in *.
 
+(* a signed char / short / int read back as unsigned *)
+Lemma u8_s8 x : u8 (s8 x) = u8 x.
+Proof. unfold s8, u8. destruct (x mod 256 <? 128); lia. Qed.
+Lemma u16_s16 x : u16 (s16 x) = u16 x.
+Proof. unfold s16, u16. destruct (x mod 65536 <? 32768); lia. Qed.
+Lemma u32_s32 x : u32 (s32 x) = u32 x.
+Proof. unfold s32, u32. destruct (x mod 4294967296 <? 2147483648); lia. Qed.
+
+(* shifts by a literal count: x << n = x * 2^n, x >> n = x / 2^n (the translator only emits literal counts below the width) *)
+Ltac shift_norm :=
+  repeat match goal with
+  | |- context [Z.shiftl ?x ?n] => is_Zlit n; rewrite (Z.shiftl_mul_pow2 x n) by lia;
+        let v := eval vm_compute in (2 ^ n) in change (2 ^ n) with v
+  | |- context [Z.shiftr ?x ?n] => is_Zlit n; rewrite (Z.shiftr_div_pow2 x n) by lia;
+        let v := eval vm_compute in (2 ^ n) in change (2 ^ n) with v
+  end.
+
+(* literal factors to the right (c * x -> x * c): syntactically equal wraps are one atom for lia, different ones two *)
+Ltac mul_norm :=
+  repeat match goal with
+  | |- context [?c * ?x] => is_Zlit c; tryif is_Zlit x then fail else rewrite (Z.mul_comm c x)
+  end.
+
 Ltac leaf_auto :=
   repeat match goal with H : _ /\ _ |- _ => destruct H end;
   unfold td_inv, td_invb, id_ok, id_okb in *;
@@ -189,10 +221,10 @@ Ltac leaf_auto :=
          end;
   unfold in_u8, in_u16, in_u32, in_u64 in *;
   try match goal with H : pow2_16 ?a |- _ => pose proof (pow2_16_bound a H) end;
-  unfold_Z_consts; cbv beta iota zeta; unwrap;
+  unfold_Z_consts; cbv beta iota zeta; shift_norm; mul_norm; unwrap;
   repeat match goal with H : pow2_16 ?a |- context [Z.land ?x (?a - 1)] => rewrite (land_pow2 x a H) end;
   unwrap;
-  repeat first [ progress cbv beta iota zeta | progress cbn [fst snd] | land_step | step ];
+  repeat first [ progress cbv beta iota zeta | progress cbn [fst snd] | progress shift_norm | land_step | step ];
   finish.
 
 
